@@ -109,6 +109,11 @@ class Model:
     def hold(self):
         a = self.scr.scrn
         self.held.append((a, np.array(a, copy=True)))
+        # the handle is the caller's: what it does to its own view object (here: marking it read-only) is not the screen's business
+        b = self.scr.scrn
+        b.flags.writeable = False
+        c = self.scr.scrn
+        self.ctx.require(c.flags.writeable and c.shape == (self.N, self.N) and c.dtype == np.float64, "after the caller marked the array it got from .scrn read-only, a later read of .scrn returns a read-only / reshaped array (the same ndarray object is handed out again)")
 
     def apply(self, op):
         k = op["op"]
@@ -260,7 +265,9 @@ def long_cases(tier):
     rows = 400 if tier == "quick" else 2000
     return [{"kind": "vk", "nx": 16, "ncol": 2, "ps": 0.1, "r0": 0.15, "L0": 25.0, "seed": s, "rows": rows} for s in (1, 2)] + \
            [{"kind": "vk", "nx": 9, "ncol": 3, "ps": 0.25, "r0": 0.3, "L0": 8.0, "seed": 3, "rows": rows},
-            {"kind": "fried", "nx": 12, "factor": 2, "ps": 0.1, "r0": 0.15, "L0": 25.0, "seed": 4, "rows": rows}]
+            {"kind": "fried", "nx": 12, "factor": 2, "ps": 0.1, "r0": 0.15, "L0": 25.0, "seed": 4, "rows": rows}] + \
+           [{"kind": "vk", "nx": 4, "ncol": 2, "ps": 0.1, "r0": 0.15, "L0": 25.0, "seed": 5, "rows": 9000},            # histories longer than any round buffer size
+            {"kind": "fried", "nx": 3, "factor": 1, "ps": 0.1, "r0": 0.15, "L0": 25.0, "seed": 6, "rows": 9000}]
 
 
 def long_body(ctx, p):
